@@ -728,6 +728,7 @@ AXES = {"quick": [[400, 1.0], [401, 1.0], [1000, 1.0]],
 AXES_TENSOR = {"quick": [[400, 1.0]],
                "thorough": [[400, 1.0], [401, 2.0], [1000, 1.0]]}
 AXES_TD = {"quick": [[400, 1.0]], "thorough": [[400, 1.0], [401, 2.0]]}
+AXES_DYN = AXES_TD
 GEOMS_TENSOR_3 = ["012", "000", "310", "231", "102", "123", "320", "011"]
 
 
@@ -774,13 +775,13 @@ def sections(tier):
     sec["aggregate+td-tensor"] = tdt
     dyn = product({"route": ["dynamics"], "kind": ["molecule"], "N": [1], "eset": ["wide"],
                    "coupling": ["none"], "geom": ["1"], "bath": ["same"], "tensor": [False],
-                   "td": [False, True], "axis": AXES_TENSOR[tier]})
+                   "td": [False, True], "axis": AXES_DYN[tier]})
     for n in (2,) if quick else (2, 3):
         dyn += product({"route": ["dynamics"], "kind": ["aggregate"], "N": [n], "eset": esets,
                         "coupling": ["none", "chain60", "dd"],
                         "geom": _geoms(n, "quick"), "bath": ["same", "sitewise"],
                         "tensor": [False], "td": [False] if quick else [False, True],
-                        "axis": AXES_TENSOR[tier]})
+                        "axis": AXES_DYN[tier]})
     sec["dynamics"] = dyn
     for lst in sec.values():
         for c in lst:
@@ -828,8 +829,8 @@ def run(run):
         "function) is outside this driver",
     ]
     run.bounds = {"N": [1, 2, 3], "time axes [Nt, dt/fs]": AXES[run.tier],
-                  "time axes with tensor / dynamics": AXES_TENSOR[run.tier],
-                  "time axes with time-dependent tensor": AXES_TD[run.tier],
+                  "time axes with static tensor": AXES_TENSOR[run.tier],
+                  "time axes with time-dependent tensor / dynamics route": AXES_TD[run.tier],
                   "rotations": len(rotations(run.tier)),
                   "rotations in the dynamics section": len(rotations("quick")),
                   "scales": SCALES,
